@@ -151,6 +151,7 @@ def w_schedules(ctx: core.Ctx, arg):
         held: list[tuple[int, Note]] = []
         delivered_log: list[Note] = []
         id_changed = False
+        burst_done = False
         ops_kinds = []
 
         def commit_some(k):
@@ -191,6 +192,13 @@ def w_schedules(ctx: core.Ctx, arg):
                     deliver(item[1], 'release_held')
             action = rng.choices(['in_order', 'drop', 'dup_now', 'dup_later', 'hold', 'swap', 'replay', 'restart', 'reload', 'reload_inflight'],
                                  [10, 3, 3, 2, 3, 3, 2, 1 if not id_changed else 0, 1, 2])[0]
+            if id_changed and rng.random() < 0.3:
+                action = 'reload_inflight'   # the application reacts to the id change while late reports of the old sequence are still under way
+            directed = hno == 0 and arg['i'] % 2 == 0   # every run: restart (new ids, LOWER version) at step 3, reload with late old reports at 4
+            if directed and step == 3 and not id_changed:
+                action = 'restart'
+            if directed and step == 4 and id_changed:
+                action = 'reload_inflight'
             batch, net.pending = net.pending, []
             if action == 'in_order' or not batch:
                 for n in batch:
@@ -236,11 +244,15 @@ def w_schedules(ctx: core.Ctx, arg):
                 for n in batch:
                     deliver(n, 'in_order')
                 which = rng.choice(['sequence', 'instance', 'both'])
+                if directed and step == 3:
+                    which = ['sequence', 'both', 'instance'][(arg['i'] // 2) % 3]
                 if which in ('sequence', 'both'):
                     mdib.sequence_id = f'urn:uuid:restart-{arg["i"]}-{hno}-{step}'
                 if which in ('instance', 'both'):
                     mdib.instance_id = (mdib.instance_id or 0) + 1
                 vmode = rng.choice(['continue', 'lower', 'higher'])
+                if directed and step == 3:
+                    vmode = 'lower'
                 if vmode == 'lower':
                     mdib.mdib_version = max(0, mdib.mdib_version - rng.randrange(1, 5))
                 elif vmode == 'higher':
@@ -256,7 +268,11 @@ def w_schedules(ctx: core.Ctx, arg):
                     if rng.random() < 0.7:
                         deliver(n, 'in_order')
                 inflight = action == 'reload_inflight'
-                _reload(ctx, world, net, cm, mon, hist, rng, commit_some, held, inflight, label)
+                burst = inflight and not burst_done and (arg['i'] % 4 == 1 or rng.random() < 0.1)
+                burst_done = burst_done or burst
+                _reload(ctx, world, net, cm, mon, hist, rng, commit_some, held, inflight, label,
+                        late_old=[n for n in delivered_log[-8:] if n.seq_id != mdib.sequence_id or n.inst != mdib.instance_id], burst=burst,
+                        force_late=directed and step == 4)
                 id_changed = False
         # final: reload, deliver the rest in order -> exact mirror
         _reload(ctx, world, net, cm, mon, hist, rng, commit_some, held, False, label)
@@ -275,7 +291,7 @@ def w_schedules(ctx: core.Ctx, arg):
         world.stop()
 
 
-def _reload(ctx, world, net, cm, mon, hist, rng, commit_some, held, inflight, label):
+def _reload(ctx, world, net, cm, mon, hist, rng, commit_some, held, inflight, label, late_old=(), burst=False, force_late=False):
     """application reload; optionally notifications arrive while the GetMdib response is in flight."""
     injected = {'GetMdib': False, 'GetContextStates': False}
 
@@ -291,12 +307,20 @@ def _reload(ctx, world, net, cm, mon, hist, rng, commit_some, held, inflight, la
         ctx.count(f'reload.inflight_point.{which}')
         # the provider has produced the GetMdib response (entry.response); before the consumer sees it the provider commits further
         # transactions whose notifications (and some held-back older ones) reach the consumer from another thread
-        commit_some(rng.randrange(0, 6))
+        if burst and which == 'GetMdib':
+            commit_some(rng.randrange(110, 150))   # a busy provider: far more notifications than usual arrive during the load
+            ctx.count('reload.inflight_bursts')
+        else:
+            commit_some(rng.randrange(0, 6))
         batch, net.pending = net.pending, []
-        k = rng.randrange(0, len(batch) + 1)  # a prefix arrives while the response is in flight, the rest afterwards (order kept)
+        k = len(batch) if burst else rng.randrange(0, len(batch) + 1)  # a prefix arrives while the response is in flight, the rest afterwards
         to_send, left = batch[:k], batch[k:]
         net.pending = left + net.pending
         older = [item[1] for item in list(held) if rng.random() < 0.5]
+        if late_old and (force_late or rng.random() < 0.8):
+            # delayed reports of the sequence / instance the provider had BEFORE its restart (possibly with higher MdibVersion than the new one)
+            older += list(late_old)
+            ctx.count('reload.inflight_late_reports_of_old_sequence', len(late_old))
 
         def run():
             for n in older + to_send:
@@ -377,6 +401,8 @@ def run(ctx: core.Ctx):
     jobs = [['w_schedules', {'i': k, 'n': n_hist // 16, 'len': length}] for k in range(16)]
     core.fanout(ctx, MODULE, 'dispatch', jobs, timeout=3000)
     ctx.floor('monitor.evaluations', 1500)
+    ctx.floor('reload.inflight_late_reports_of_old_sequence', 8)
+    ctx.floor('reload.inflight_bursts', 1)
     for name, n in (('deliver.stale', 20), ('deliver.duplicate', 20), ('deliver.dropped', 10), ('deliver.swap', 20), ('reload.inflight', 5),
                     ('reload.inflight_notifications', 10), ('mirror.final_comparisons', 16),
                     ('reload.buffer_lock_release_injections', 5)):
